@@ -961,14 +961,34 @@ func (c *compiler) compile(in *ast.Program, strict, inGlobal bool, evalVm *vm) {
 	funcs := c.extractFunctions(in.Body)
 	c.createFunctionBindings(funcs)
 	numFuncs := len(scope.bindings)
-	if inGlobal && !ownVarScope {
+	// Sloppy eval code evaluated at the global level: its function declarations become global bindings, but they
+	// close over the lexical environment of the eval code (EvalDeclarationInstantiation instantiates them with lexEnv),
+	// so they have to be compiled inside the block scope holding the eval code's let/const/class declarations.
+	lexFirst := eval && inGlobal && !ownVarScope && len(funcs) > 0
+	var enter *enterBlock
+	compileGlobalFuncs := func() {
 		if numFuncs == len(funcs) {
 			c.compileFunctionsGlobalAllUnique(funcs)
 		} else {
-			c.compileFunctionsGlobal(funcs)
+			c.compileFunctionsGlobal(funcs, scope)
 		}
 	}
+	if inGlobal && !ownVarScope && !lexFirst {
+		compileGlobalFuncs()
+	}
 	c.compileDeclList(in.DeclarationList, false)
+	if lexFirst {
+		if c.compileLexicalDeclarations(in.Body, false) {
+			c.block = &block{
+				outer:      c.block,
+				typ:        blockScope,
+				needResult: true,
+			}
+			enter = &enterBlock{}
+			c.emit(enter)
+		}
+		compileGlobalFuncs()
+	}
 	numVars := len(scope.bindings) - numFuncs
 	vars := make([]unistring.String, len(scope.bindings))
 	for i, b := range scope.bindings {
@@ -985,8 +1005,7 @@ func (c *compiler) compile(in *ast.Program, strict, inGlobal bool, evalVm *vm) {
 			c.emit(&bindVars{names: vars, deletable: eval})
 		}
 	}
-	var enter *enterBlock
-	if c.compileLexicalDeclarations(in.Body, ownVarScope || !ownLexScope) {
+	if !lexFirst && c.compileLexicalDeclarations(in.Body, ownVarScope || !ownLexScope) {
 		if ownLexScope {
 			c.block = &block{
 				outer:      c.block,
@@ -1103,7 +1122,7 @@ func (c *compiler) compileFunctionsGlobalAllUnique(list []*ast.FunctionDeclarati
 	}
 }
 
-func (c *compiler) compileFunctionsGlobal(list []*ast.FunctionDeclaration) {
+func (c *compiler) compileFunctionsGlobal(list []*ast.FunctionDeclaration, scope *scope) {
 	m := make(map[unistring.String]int, len(list))
 	for i := len(list) - 1; i >= 0; i-- {
 		name := list[i].Function.Name.Name
@@ -1116,7 +1135,7 @@ func (c *compiler) compileFunctionsGlobal(list []*ast.FunctionDeclaration) {
 		name := decl.Function.Name.Name
 		if m[name] == i {
 			c.compileFunctionLiteral(decl.Function, false).emitGetter(true)
-			c.scope.bindings[idx] = c.scope.boundNames[name]
+			scope.bindings[idx] = scope.boundNames[name]
 			idx++
 		} else {
 			leave := c.enterDummyMode()
